@@ -115,6 +115,53 @@ theorem c04_no_skip {P : Params} {pre post : List Ev} {m p o : Nat}
       rw [this] at h3; cases h3
   · cases hg
 
+/-- **at-least-once for the group as a whole**: when a record at offset `o` is handed to the
+    application by any member, every visible record of that partition from the log start up to
+    `o` has already been handed out by *some* member of the group — whatever crashes, stops,
+    rebalances and refused commits lie in between.  (Chains `c04_no_skip` for the running
+    ownership epoch with `c04_no_loss` for the offset that epoch was started at.) -/
+theorem c04_group_at_least_once {P : Params} {pre post : List Ev} {m p o : Nat}
+    (h : accepts P (pre ++ .deliver m p o :: post) = true) :
+    ∀ k, P.logStart p ≤ k → k < o → P.vis p k = true → ∃ m', .deliver m' p k ∈ pre := by
+  obtain ⟨st, hst, _, hskip⟩ := c04_no_skip h
+  intro k h1 h2 h3
+  by_cases hk : st ≤ k
+  · exact ⟨m, hskip k hk h2 h3⟩
+  · have key : ∀ src, Since (· = .offer m p st src) (epochB m) pre → ∃ m', Ev.deliver m' p k ∈ pre := by
+      intro src hs
+      obtain ⟨a, x, b, rfl, hx, _⟩ := hs
+      subst hx
+      have h' : accepts P (a ++ .offer m p st src :: (b ++ .deliver m p o :: post)) = true := by
+        simpa [List.append_assoc] using h
+      obtain ⟨m', hm'⟩ := c04_no_loss h' k h1 (by omega) h3
+      exact ⟨m', by simp [hm']⟩
+    rcases hst with hs | ⟨hs, _⟩
+    · exact key _ hs
+    · exact key _ hs
+
+/-- every delivery happens in an ownership epoch that was started either at an offset some member
+    of the group had successfully committed before, or at the log start (reset after "no committed
+    offset"): a member never starts from a position of its own invention -/
+theorem c04_start_is_commit_or_log_start {P : Params} {pre post : List Ev} {m p o : Nat}
+    (h : accepts P (pre ++ .deliver m p o :: post) = true) :
+    ∃ st, st ≤ o ∧ ((∃ m', .commit m' p st true ∈ pre) ∨ st = P.logStart p) := by
+  obtain ⟨st, hst, hle⟩ := c04_redelivery_only_above_commit h
+  refine ⟨st, hle, ?_⟩
+  rcases hst with hs | ⟨hs, _⟩
+  · obtain ⟨a, x, b, rfl, hx, _⟩ := hs
+    subst hx
+    have h' : accepts P (a ++ .offer m p st .committed :: (b ++ .deliver m p o :: post)) = true := by
+      simpa [List.append_assoc] using h
+    obtain ⟨m', hm'⟩ := c04_start_is_a_commit h'
+    exact Or.inl ⟨m', by simp [hm']⟩
+  · obtain ⟨a, x, b, rfl, hx, _⟩ := hs
+    subst hx
+    have h' : accepts P (a ++ .offer m p st .reset :: (b ++ .deliver m p o :: post)) = true := by
+      simpa [List.append_assoc] using h
+    obtain ⟨s, I, hg⟩ := reach_of_accepts h'
+    simp [guard] at hg
+    exact Or.inr hg.1
+
 /-! ## non-vacuity -/
 
 def allVis : Params := { vis := fun _ _ => true, logStart := fun _ => 0 }
